@@ -129,6 +129,22 @@ class AccessMixin:
             fty = base.ty
         fty = self.norm_ty(fty)
         self.assume_type(t, fty, fr)
+        if self.qdepth and fty is not None and fty.name not in ("any",):
+            # under a quantifier the receiver is a bound variable: state the field's type invariant for ALL instances
+            ci = self.cls_of(base.ty, fr)
+            if ci is not None:
+                r = z3.Int("ty!r")
+                subs = self.repo.subclasses(ci)
+                if 0 < len(subs) <= 16:
+                    sel = z3.Select(self.st.field(attr), r)
+                    q, self.qdepth = self.qdepth, 0
+                    try:
+                        tp = self.type_pred(sel, Ty(fty.name, (), fty.nullable), fr, 1)
+                    finally:
+                        self.qdepth = q
+                    if not z3.is_true(tp):
+                        guard = z3.And(r >= 0, z3.Or([self.st.read("$type", r) == c.cid for c in subs]))
+                        self.st.assume(z3.ForAll([r], z3.Implies(guard, tp), patterns=[sel]))
         if fty is None:
             # refs stored in the heap are allocated
             self.st.assume(z3.Implies(Val.is_VRef(t), RID(t) < self.st.alloc))
